@@ -273,3 +273,9 @@ func (s *Server) TakeWritten() []Frame {
 	s.Written = nil
 	return w
 }
+
+func (s *Server) SetFail(id string, fail bool) {
+	s.mu.Lock()
+	defer s.mu.Unlock()
+	s.FailWrite[id] = fail
+}
